@@ -185,7 +185,7 @@ def write_scripts(path, scs):
             f.write(json.dumps({k: s[k] for k in ("id", "idem", "outcomes") if k in s} | ({"kind": s["kind"]} if "kind" in s else {})) + "\n")
 
 
-def run_property(ctx, own, plans, scenario_filter=None, nscen=700, extra_cov=None, design=False, own_tags=()):
+def run_property(ctx, own, plans, scenario_filter=None, nscen=700, extra_cov=None, design=False, own_tags=(), stages=()):
     """plans: list of (name, driver args without -in, use_scripts: bool)."""
     thorough = ctx.tier == "thorough"
     rnd = random.Random(ctx.seed)
@@ -202,6 +202,8 @@ def run_property(ctx, own, plans, scenario_filter=None, nscen=700, extra_cov=Non
     path = ctx.path("scenarios.jsonl")
     write_scripts(path, chosen)
     total_events, traces, others, samples, stats_all, nreq = 0, 0, [], [], [], 0
+    for stage in stages:
+        stage(ctx)
     for plan in plans:
         name, args, scripted = plan[0], plan[1], plan[2]
         tag = plan[3] if len(plan) > 3 else None
